@@ -117,7 +117,7 @@ Fixpoint wait_repl_start (fuel : nat) (h : host) (deadline : Z) : prog unit :=
         | Some _ => wait_repl_start f h deadline
         | None =>
             match fst s with
-            | None => Panic 2107            (* sstatus.ReplicationRunning() on a nil interface *)
+            | None => Do 2111 (Sleep sec) (fun _ => wait_repl_start f h deadline)   (* no status: not running yet *)
             | Some rs => if rs_io rs && rs_sql rs then Ret tt else Do 2111 (Sleep sec) (fun _ => wait_repl_start f h deadline)
             end
         end
